@@ -265,10 +265,17 @@ PAIRS = [
                (r"BigTtlTriplesYielder", "OneY")], props=("C08x", "C04")),
     Pair("multi-constructors-nt-vs-tsv", "shexer.io.graph.yielder.multi_nt_triples_yielder:MultiNtTriplesYielder._constructor_file_yielder",
          "shexer.io.graph.yielder.multi_tsv_nt_triples_yielder:MultiTsvNtTriplesYielder._constructor_file_yielder",
-         subs=[(r"TsvNtTriplesYielder", "Y"), (r"NtTriplesYielder", "Y")], props=("C04",)),
+         subs=[(r"TsvNtTriplesYielder", "Y"), (r"NtTriplesYielder", "Y")], props=("C04", "C06")),
+    Pair("multi-init-nt-vs-tsv", "shexer.io.graph.yielder.multi_nt_triples_yielder:MultiNtTriplesYielder.__init__",
+         "shexer.io.graph.yielder.multi_tsv_nt_triples_yielder:MultiTsvNtTriplesYielder.__init__",
+         subs=[(r"MultiTsvNtTriplesYielder", "M"), (r"MultiNtTriplesYielder", "M")], props=("C04", "C06"),
+         why="the multi-file readers take and forward the same options (compression, zip archive, untyped numbers)"),
+    Pair("multi-init-nt-vs-ttl", "shexer.io.graph.yielder.multi_nt_triples_yielder:MultiNtTriplesYielder.__init__",
+         "shexer.io.graph.yielder.multi_big_ttl_files_triple_yielder:MultiBigTtlTriplesYielder.__init__",
+         subs=[(r"MultiBigTtlTriplesYielder", "M"), (r"MultiNtTriplesYielder", "M")], props=("C04", "C06", "C07")),
     Pair("multi-constructors-nt-vs-ttl", "shexer.io.graph.yielder.multi_nt_triples_yielder:MultiNtTriplesYielder._constructor_file_yielder",
          "shexer.io.graph.yielder.multi_big_ttl_files_triple_yielder:MultiBigTtlTriplesYielder._constructor_file_yielder",
-         subs=[(r"BigTtlTriplesYielder", "Y"), (r"NtTriplesYielder", "Y")], props=("C04",)),
+         subs=[(r"BigTtlTriplesYielder", "Y"), (r"NtTriplesYielder", "Y")], props=("C04", "C06", "C07")),
     Pair("unprefixize-if-possible-vs-mandatory", "shexer.utils.uri:unprefixize_uri_if_possible", "shexer.utils.uri:unprefixize_uri_mandatory",
          expected=[(r"return v0", r"raise ValueError\(.*\)", "the mandatory variant rejects an unknown prefix instead of returning the input")],
          props=("C07", "C10")),
